@@ -234,6 +234,7 @@ PROPS["C07"] = dict(
         M(["L1", "L2", "L3", "L7"], ["L1.", "C07.", "L2.", "L3.", "L7."], bounds="all u64 ranges / header fields; cache pre-state arbitrary under Inv; all straight-line accessors x both classes; open_stream vs minimal_parse with all header fields symbolic; "
           "looped accessors (symbol_table, dynamic_symbol_table, dynamic, section_headers_with_strtab) on section/program tables of 1..2 entries with every header field symbolic (ELF64)"),
         M(["L7both"], ["C07.", "L7."], tier="thorough", bounds="looped accessors, both classes"),
+        M(["L7symver3"], ["C07.", "L7."], tier="thorough", timeout_s=3300, bounds="symbol_version_table stream vs slice on 3-entry section tables (.gnu.version, _r and _d together), fault-free reader, empty cache, pairwise distinct section ranges"),
         M(["L1", "L2", "L5", "L8", "XCHECK"], ["XCHECK."], tier="thorough", bounds="every 7th z3-decided query of L1/L2/L5/L8 (at most 150) re-decided by cvc5 1.0 through SMT-LIB2; a disagreement makes the check inconclusive"),
     ],
     assumptions=MIRSYM_ASSUME,
